@@ -67,6 +67,16 @@ def load(path):
     i = 0
     while i < len(lines):
         ln = lines[i]
+        pm = re.match(r"^const (.*::promoted\[\d+\]): (.*) = \{$", ln)
+        if pm:
+            j = i + 1
+            body = []
+            while lines[j] != "}":
+                body.append(lines[j])
+                j += 1
+            consts["promoted:" + pm.group(1)] = ("body", pm.group(2).strip(), body)
+            i = j + 1
+            continue
         m = re.match(r"^(?:pub )?const ([\w:<>\s]+?): ([^=]+) = (.*)$", ln)
         if m and not ln.startswith("    "):
             name, ty, rest = m.group(1).strip(), m.group(2).strip(), m.group(3).strip()
